@@ -19,8 +19,8 @@ Definition bfield_eqb (a b : bfield) : bool :=
 (* public comparison with the monolith: kinds, fields with signatures, interfaces, members, values; not the federation flags *)
 Definition tdef_public_equiv (a b : tdef) : bool :=
   String.eqb (td_name a) (td_name b) && kind_eqb (td_kind a) (td_kind b) &&
-  multiset_eqb fdef_eqb (td_fields a) (td_fields b) && seteq_str (td_ifaces a) (td_ifaces b) &&
-  seteq_str (td_members a) (td_members b) && seteq_str (td_enum a) (td_enum b).
+  multiset_eqb fdef_eqb (td_fields a) (td_fields b) && multiset_eqb String.eqb (td_ifaces a) (td_ifaces b) &&
+  multiset_eqb String.eqb (td_members a) (td_members b) && multiset_eqb String.eqb (td_enum a) (td_enum b).   (* a name listed twice is not the same schema *)
 
 Definition owners_of (svcs : list service_src) (t f : string) : list string :=
   flat_map (fun sv => match find_type t (sv_types sv) with
@@ -35,7 +35,11 @@ Definition check_merge_case (c : merge_case) : list (string * bool) :=
                            | Ok s, Some o => schema_equiv s o
                            | Err _, None => true
                            | _, _ => false end);
-    ("corr.locations", negb published || multiset_eqb pair_eqb (field_url_map (mc_services c)) (obs_locations c));
+    (* the former Node interface is plumbing: it is not part of the public schema, and which of several services its stray
+       routing entry names follows the order in which polls completed *)
+    ("corr.locations", negb published ||
+                       let public := filter (fun p => negb (String.prefix "Node." (fst p))) in
+                       multiset_eqb pair_eqb (public (field_url_map (mc_services c))) (public (obs_locations c)));
     ("corr.is_boundary", negb published ||
                          multiset_eqb (fun a b => String.eqb (fst a) (fst b) && Bool.eqb (snd a) (snd b)) (is_boundary_map (mc_services c)) (obs_is_boundary c));
     ("corr.lookups", negb published ||
